@@ -200,7 +200,13 @@ class SqlMachine:
                     cols = [c.strip().strip("`\"'") for c in m.group(1).split(",")]
             return Obj(kind="Row", label=f"row:{table}", attrs={"cols": cols, "table": table, "idx": cur.attrs.get("_idx", 0)})
 
+        def pinned_empty(cur):
+            kind, table = cur.attrs.get("last") or (None, None)
+            return kind == "SELECT" and table in getattr(mach, "empty_tables", ())      # a scenario pins this table as empty
+
         def fetchone(I, cur, a, k, n):
+            if pinned_empty(cur):
+                return None
             c = I.choose(2, f"fetchone:{cur.attrs.get('last')}")
             if c == 0:
                 return row_for(cur)
@@ -218,11 +224,16 @@ class SqlMachine:
                     rows.append(row_for(cur))
                 cur.attrs["_idx"] = 0
                 return rows
+            if pinned_empty(cur):
+                cur.attrs["pending"] = None
+                return []
             c = I.choose(2, f"fetchall:{cur.attrs.get('last')}")
             cur.attrs["pending"] = None
             return [row_for(cur)] if c == 0 else []
 
         def fetchmany(I, cur, a, k, n):
+            if pinned_empty(cur):
+                return []
             c = I.choose(2, f"fetchmany:{cur.attrs.get('last')}")
             if c == 0:
                 cur.attrs["pending"] = cur.attrs.get("last")     # more rows of this result may remain
